@@ -27,9 +27,9 @@ func init() {
 		Assumptions: []string{"root", "reference filter as in C10; follow-paths are resolved by fsutil.FollowLinks itself (its correctness is C18's subject)", "K1 triage as in C10"},
 		Cases: func(tier string) int {
 			if tier == "thorough" {
-				return 15000
+				return 60000
 			}
-			return 800
+			return 3000
 		},
 		Batch:         40,
 		MinNontrivial: func(tier string) int { return 100 },
